@@ -479,6 +479,11 @@ def judge(prep, inputs_json: dict, timeout: float, excl=()) -> dict:
             an2_ = cal_ if (not cal_.startswith("__") or cal_.endswith("__")) else f"_{owner.__name__.lstrip('_')}{cal_}"
             cur_ = getattr(inputs["self"], an2_, None)
             real2_ = getattr(owner, an2_, None)
+            modlevel_ = False
+            if cur_ is None and real2_ is None and callable(getattr(mod, cal_, None)):
+                # the callee is a function of the unit's module (HeaderExtensionsMap.set -> pack_header_extensions)
+                cur_ = real2_ = getattr(mod, cal_)
+                modlevel_ = True
             if cur_ is None or real2_ is None:
                 continue
             try:
@@ -486,11 +491,11 @@ def judge(prep, inputs_json: dict, timeout: float, excl=()) -> dict:
             except (TypeError, ValueError):
                 continue
 
-            def _probe(*a, _cur=cur_, _sig=sig_, _cl=clauses_, _name=cal_, **kw):
+            def _probe(*a, _cur=cur_, _sig=sig_, _cl=clauses_, _name=cal_, _ml=modlevel_, **kw):
                 fr = sys._getframe(1)
                 if fr.f_code.co_name == unit.split(".")[-1]:
                     try:
-                        ba = _sig.bind(inputs["self"], *a, **kw)
+                        ba = _sig.bind(*a, **kw) if _ml else _sig.bind(inputs["self"], *a, **kw)
                         ba.apply_defaults()
                         env_ = dict(fr.f_locals)
                         env_.update({k_: v_ for k_, v_ in ba.arguments.items() if k_ != "self"})
@@ -503,7 +508,10 @@ def judge(prep, inputs_json: dict, timeout: float, excl=()) -> dict:
                         pass
                 return _cur(*a, **kw)
             try:
-                object.__setattr__(inputs["self"], an2_, _probe)
+                if modlevel_:
+                    setattr(mod, cal_, _probe)
+                else:
+                    object.__setattr__(inputs["self"], an2_, _probe)
             except Exception:
                 pass
     # 2. call with watchdog
